@@ -1,2 +1,196 @@
--- Driver stub for C03 (replaced when the property's model driver is written).
-def main : IO Unit := IO.println "C03: no driver yet"
+import TsVerif.Common.IO
+import TsVerif.C03.Judge
+/-!
+Driver for C03.  Reads grammar blocks (grammar.json, table dump, terminals) and cases (token string,
+real has_error, real internal tree, real visible tree); prints one line per grammar
+`G <gid> closed=.. states=.. oracle=.. L=.. lang=.. fix=..` and one line per case
+`<cid> corr=<ok|skip|msg> judge=<ok|FAIL msg> drv=.. member=.. deriv=.. prods=.. len=..`.
+-/
+open TsVerif TsVerif.C03
+
+structure TermInfo where
+  tok : Tok
+  sym : Nat
+  extra : Bool
+  text : String
+  deriving Inhabited
+
+structure GState where
+  gid : String := ""
+  kind : String := ""
+  gjson : String := ""
+  order : List String := []
+  optable : Option OpTable := none
+  tableLines : Array String := #[]
+  terms : Array TermInfo := #[]
+  exh : Nat := 0
+  -- computed at `ready`
+  tbl : Table := {}
+  closed : Bool := false
+  g : Grammar := {}
+  oracle : Option (Std.HashSet (List Tok)) := none
+  opOK : Bool := true
+  -- current case
+  cid : String := ""
+  err : Bool := false
+  isT : Bool := true
+  toks : List Nat := []
+  itree : Array String := #[]
+  vtree : Array String := #[]
+  mode : Nat := 0    -- 0 none, 1 table, 2 itree, 3 vtree
+
+def parseOpTable (s : String) : OpTable :=
+  (s.splitOn ",").foldl (fun t part =>
+    match part.splitOn ":" with
+    | ["b", tx, lv, as, nm] => { t with bin := t.bin ++ [{ text := unhexString tx, level := intOf' lv, right := as == "R", rule := nm }] }
+    | ["u", tx, lv, nm] => { t with un := t.un ++ [{ text := unhexString tx, level := intOf' lv, rule := nm }] }
+    | _ => t) {}
+
+def reorder (g : Grammar) (order : List String) : Grammar :=
+  if order.isEmpty then g else
+  { g with rules := order.filterMap fun n => (g.rules.lookup n).map fun r => (n, r) }
+
+def natList (s : String) : List Nat := if s == "-" || s == "" then [] else (s.splitOn ",").map natOf'
+
+def opTokOf (t : OpTable) (name : String) (named : Bool) : Option OpTok :=
+  if named then (if name == "num" then some .atom else none)
+  else if name == "(" then some .lpar
+  else if name == ")" then some .rpar
+  else match t.bin.findIdx? (fun b => b.text == name) with
+    | some k => some (.bin k)
+    | none => match t.un.findIdx? (fun u => u.text == name) with
+      | some k => some (.un k)
+      | none => none
+
+def onReady (s : GState) : GState × String :=
+  let tbl := Table.ofLines s.tableLines.toList
+  let closed := tableClosed tbl
+  let g := match parseGrammar s.gjson with
+    | some g => reorder g s.order
+    | none => {}
+  let simple := simpleTerminals g
+  let (oracle, langSize, fix) :=
+    if s.exh > 0 && simple && s.terms.size > 0 then
+      let (env, fix) := enumFix g s.exh (6 * s.exh + 2 * g.rules.length + 8) 0 []
+      let set := env.get g.start
+      (some (Std.HashSet.ofList set), set.length, fix)
+    else (none, 0, false)
+  let opOK := match s.optable with
+    | some t => decide (g.rules = opGrammarRules t)
+    | none => true
+  let termsOK := s.terms.all fun t =>
+    let i := tbl.syms.getD t.sym default
+    i.name == t.tok.name && t.sym < tbl.tokenCount
+  ({ s with tbl := tbl, closed := closed, g := g, oracle := oracle, opOK := opOK },
+   s!"G {s.gid} kind={s.kind} closed={closed} states={tbl.stateCount} symbols={tbl.symbolCount} rules={g.rules.length} " ++
+   s!"simple={simple} oracle={oracle.isSome} L={s.exh} lang={langSize} fix={fix} opgrammar={opOK} terms={termsOK} nterm={s.terms.size}")
+
+def drvName : Outcome → String
+  | .accepted _ => "acc"
+  | .rejected _ => "rej"
+  | .glr => "glr"
+  | .fault f => s!"fault:{repr f}"
+  | .fuelOut => "fuel"
+
+def runCase (s : GState) : String :=
+  let tbl := s.tbl
+  let real := if s.err then none else parseDump s.itree.toList
+  let vt := if s.err then none else buildV s.vtree.toList
+  let realLeaves := match real with
+    | some d => leavesOfDump tbl d.root
+    | none => []
+  let symToks : List Nat :=
+    if s.isT then s.toks.map fun i => (s.terms.getD i default).sym
+    else realLeaves.dropLast
+  let haveToks := s.isT || !s.err
+  let drv := if haveToks then run tbl symToks else .glr
+  -- correspondence: model driver vs real parser
+  let corr : String :=
+    if !haveToks then "skip"
+    else match drv with
+      | .glr => "skip"
+      | .fuelOut => "skip"
+      | .fault f => if s.closed then s!"model-fault-on-closed-table:{repr f}" else "skip"
+      | .rejected _ => if s.err then "ok" else "model-rejects-real-accepts"
+      | .accepted t =>
+        if s.err then "model-accepts-real-rejects"
+        else match real with
+          | none => "no-real-tree"
+          | some d =>
+            if realLeaves != symToks ++ [0] then s!"real-leaves-differ-from-token-string"
+            else match diffS (flat tbl (ofPTree t)) (flat tbl (ofDump d.root)) [] with
+              | none => "ok"
+              | some m => s!"tree:{m}"
+  -- judge on the implementation's outputs
+  let w : List Tok := s.toks.map fun i => (s.terms.getD i default).tok
+  let wNoExtra := w.filter fun t => !(extraToks s.g).contains t
+  let member : Option Bool :=
+    match s.oracle with
+    | some set => if s.isT && s.toks.length ≤ s.exh then some (set.contains wNoExtra) else none
+    | none => none
+  let deriv : Option Bool := match vt with
+    | some v => some (checkDerivation s.g v)
+    | none => none
+  let prattMsg : Option String :=
+    match s.optable, s.isT with
+    | some t, true =>
+      let otoks := s.toks.map fun i => let ti := s.terms.getD i default; opTokOf t ti.tok.name ti.tok.named
+      if otoks.any Option.isNone then none else
+      let ot := otoks.filterMap id
+      match pratt t ot, vt with
+      | some e, some v => match diffV (progV t e) v [] with
+        | none => none
+        | some m => some s!"pratt-tree-differs:{m}"
+      | some _, none => some "pratt-accepts-real-rejects"
+      | none, some _ => some "pratt-rejects-real-accepts"
+      | none, none => none
+    | _, _ => none
+  let judge : String :=
+    match member with
+    | some m => if m == !s.err then "" else s!"membership(member={m},has_error={s.err});"
+    | none => ""
+  let judge := judge ++ (match deriv with
+    | some false => "tree-is-not-a-derivation;"
+    | _ => "")
+  let judge := judge ++ (match prattMsg with
+    | some m => m ++ ";"
+    | none => "")
+  let judge := if !s.opOK then judge ++ "opgrammar-mismatch;" else judge
+  let prods := match real with
+    | some d => (prodsOf (ofDump d.root)).eraseDups.length
+    | none => 0
+  let memS := match member with | some true => "1" | some false => "0" | none => "na"
+  let derS := match deriv with | some true => "ok" | some false => "fail" | none => "na"
+  s!"{s.cid} corr={corr} judge={if judge.isEmpty then "ok" else "FAIL " ++ judge} drv={drvName drv} err={if s.err then 1 else 0} member={memS} deriv={derS} prods={prods} len={symToks.length}"
+
+def step (s : GState) (line : String) : IO GState := do
+  if s.mode == 1 then
+    if line == "end" then return { s with mode := 0 } else return { s with tableLines := s.tableLines.push line }
+  if s.mode == 2 then
+    if line == "end" then return { s with mode := 0 } else return { s with itree := s.itree.push line }
+  if s.mode == 3 then
+    if line == "end" then return { s with mode := 0 } else return { s with vtree := s.vtree.push line }
+  if line.startsWith "gjson " then return { s with gjson := (line.drop 6).toString }
+  match line.splitOn " " with
+  | ["grammar", gid, kind] => return { gid := gid, kind := kind }
+  | "ruleorder" :: names => return { s with order := names.map unhexString }
+  | ["optable", enc] => return { s with optable := some (parseOpTable enc) }
+  | ["table"] => return { s with mode := 1 }
+  | ["term", _idx, named, sym, nm, tx, ex] =>
+    return { s with terms := s.terms.push { tok := ⟨unhexString nm, named == "1"⟩, sym := natOf' sym, extra := ex == "1", text := unhexString tx } }
+  | ["exh", l] => return { s with exh := natOf' l }
+  | ["ready"] =>
+    let (s', msg) := onReady s
+    IO.println msg
+    return s'
+  | ["case", cid, err, ty, lst] =>
+    return { s with cid := cid, err := err == "1", isT := ty == "T", toks := if ty == "T" then natList lst else [],
+                    itree := #[], vtree := #[] }
+  | ["itree"] => return { s with mode := 2 }
+  | ["vtree"] => return { s with mode := 3 }
+  | ["run"] => IO.println (runCase s); return s
+  | "stats" :: rest => IO.println ("S " ++ " ".intercalate rest); return s
+  | _ => return s
+
+def main : IO Unit := do
+  let _ ← foldLines (← IO.getStdin) ({} : GState) step
